@@ -104,6 +104,8 @@ namespace occa {
         // Get argument
         arg.expr = tokenContext.parseExpression(smntContext,
                                                 parser);
+        // parseExpression reports its own errors and returns NULL
+        success &= (arg.expr != NULL);
         if (!success) {
           tokenContext.pop();
           arg.clear();
